@@ -72,10 +72,13 @@ fn go_split<T: Lab>(op: &str, args: &[Arg]) -> Option<String> {
     Some(match (op, &args[1..]) {
         ("sort", [ax, Arg::N]) => w2(res_arr(&a.sort(opt_isize(ax)?, None::<SortKind>)), res_arr(&okr(&a).sort(opt_isize(ax)?, None::<SortKind>))),
         ("sort", [ax, Arg::Z(k)]) => w2(res_arr(&a.sort(opt_isize(ax)?, Some(sort_kind(*k)))), res_arr(&okr(&a).sort(opt_isize(ax)?, Some(sort_kind(*k))))),
-        ("sort", [ax, Arg::S(k)]) => w2(res_arr(&a.sort(opt_isize(ax)?, Some(std::str::from_utf8(k).ok()?))), res_arr(&okr(&a).sort(opt_isize(ax)?, Some(std::str::from_utf8(k).ok()?)))),
+        // the kind by name: both string parsers (&str and owned String), both receivers
+        ("sort", [ax, Arg::S(k)]) => w2(w2(res_arr(&a.sort(opt_isize(ax)?, Some(std::str::from_utf8(k).ok()?))), res_arr(&a.sort(opt_isize(ax)?, Some(String::from_utf8(k.clone()).ok()?)))),
+                                        w2(res_arr(&okr(&a).sort(opt_isize(ax)?, Some(std::str::from_utf8(k).ok()?))), res_arr(&okr(&a).sort(opt_isize(ax)?, Some(String::from_utf8(k.clone()).ok()?))))),
         ("argsort", [ax, Arg::N]) => w2(res_arr(&a.argsort(opt_isize(ax)?, None::<SortKind>)), res_arr(&okr(&a).argsort(opt_isize(ax)?, None::<SortKind>))),
         ("argsort", [ax, Arg::Z(k)]) => w2(res_arr(&a.argsort(opt_isize(ax)?, Some(sort_kind(*k)))), res_arr(&okr(&a).argsort(opt_isize(ax)?, Some(sort_kind(*k))))),
-        ("argsort", [ax, Arg::S(k)]) => w2(res_arr(&a.argsort(opt_isize(ax)?, Some(String::from_utf8(k.clone()).ok()?))), res_arr(&okr(&a).argsort(opt_isize(ax)?, Some(String::from_utf8(k.clone()).ok()?)))),
+        ("argsort", [ax, Arg::S(k)]) => w2(w2(res_arr(&a.argsort(opt_isize(ax)?, Some(std::str::from_utf8(k).ok()?))), res_arr(&a.argsort(opt_isize(ax)?, Some(String::from_utf8(k.clone()).ok()?)))),
+                                           w2(res_arr(&okr(&a).argsort(opt_isize(ax)?, Some(std::str::from_utf8(k).ok()?))), res_arr(&okr(&a).argsort(opt_isize(ax)?, Some(String::from_utf8(k.clone()).ok()?))))),
         ("unique", [ax]) => w2(res_arr(&a.unique(opt_isize(ax)?)), res_arr(&okr(&a).unique(opt_isize(ax)?))),
         ("delete", [Arg::L(idx), ax]) => w2(res_arr(&a.delete(&usizes(idx), opt_usize(ax)?)), res_arr(&okr(&a).delete(&usizes(idx), opt_usize(ax)?))),
         ("insert", [Arg::L(idx), Arg::A(s2, e2), ax]) => w2(res_arr(&a.insert(&usizes(idx), &mk::<T>(s2, e2)?, opt_usize(ax)?)), res_arr(&okr(&a).insert(&usizes(idx), &mk::<T>(s2, e2)?, opt_usize(ax)?))),
